@@ -26,6 +26,7 @@ type HTTPCase struct {
 	Query  string `json:"q"` // raw query
 	Body   string `json:"b"`
 	Chunk  bool   `json:"chunk"` // send with unknown length (chunked)
+	Paused bool   `json:"paused,omitempty"` // pre-state: topic t and channel c are paused
 }
 
 func (c HTTPCase) String() string {
@@ -33,7 +34,11 @@ func (c HTTPCase) String() string {
 	if len(b) > 12 {
 		b = fmt.Sprintf("%s...(%d)", b[:12], len(b))
 	}
-	return fmt.Sprintf("%s %s?%s body=%q chunked=%v", c.Method, c.Path, c.Query, b, c.Chunk)
+	pre := ""
+	if c.Paused {
+		pre = " pre=paused"
+	}
+	return fmt.Sprintf("%s %s?%s body=%q chunked=%v%s", c.Method, c.Path, c.Query, b, c.Chunk, pre)
 }
 
 // DoRaw performs a request with full control over the raw query and the declared length.
@@ -260,6 +265,11 @@ func RunHTTPCase(c HTTPCase) vx.Out {
 	w.Do("POST", "/channel/create?topic=t&channel=k", nil)
 	w.Do("POST", "/pub?topic=u", []byte("three"))
 	w.Quiesce()
+	if c.Paused {
+		w.Do("POST", "/topic/pause?topic=t", nil)
+		w.Do("POST", "/channel/pause?topic=t&channel=c", nil)
+		w.Quiesce()
+	}
 	before := w.apiSnapshot()
 	codes, effect := apiModel(c)
 	code, hdr, body := w.DoRaw(c)
